@@ -49,25 +49,89 @@ def ma_setitem(ip, o, args, kwargs, node):
     return NONE
 
 
-def iterpairs_filter_from_source(cls, name='iterpairs'):
-    """read the triangle predicate of MatrixArray.iterpairs from its source (R13 checks it fully)"""
+_ITERPAIRS_CACHE = {}
+
+
+def enumerate_iterpairs(prog, cls, rank, name='iterpairs'):
+    """abstract execution of the real MatrixArray.iterpairs generator on an array of concrete `rank`: the list of
+    (i, j, label_i_ok, label_j_ok, yields_own_pair_function)"""
+    from .interp import Interp
+    ip = Interp(prog)
+    labels = [Label('t%d' % i) for i in range(rank)]
+    ip.declare('M', 'tensor', symmetric=True)
+    data = Arr(N.sym('M'), 'self.data', ip)
+    o = Obj(cls, {'rank': const_num(rank), 'types': Seq(list(labels), 'list'), 'data': data,
+                  'length': Num(ip.declare('L', integer=True)), 'typeMap': Obj('typemap', {})}, 'self')
     m = cls.find_method(name)
-    if m is None:
-        return None
-    for n in ast.walk(m.node):
-        if isinstance(n, ast.If) and isinstance(n.test, ast.Compare) and len(n.test.ops) == 1:
-            t = n.test
-            if isinstance(t.left, ast.Name) and isinstance(t.comparators[0], ast.Name):
-                if any(isinstance(x, ast.Yield) for x in ast.walk(n)):
-                    return {ast.LtE: '<=', ast.Lt: '<', ast.GtE: '>=', ast.Gt: '>'}.get(type(t.ops[0]))
-    return None
+    res = ip.call(ip.make_func(m, o), [], {})
+    if not isinstance(res, Seq):
+        raise Unsupported('iterpairs does not yield a sequence')
+    out = []
+    for item in res.items:
+        if not (isinstance(item, Seq) and len(item.items) == 3):
+            raise Unsupported('iterpairs yields %r' % (item,))
+        ij, tt, pair = item.items
+        if not (isinstance(ij, Seq) and len(ij.items) == 2 and all(is_const_num(x) for x in ij.items)):
+            raise Unsupported('iterpairs yields non-constant indices')
+        i, j = (int(num_value(x)) for x in ij.items)
+        lab_ok = isinstance(tt, Seq) and len(tt.items) == 2 and 0 <= i < rank and 0 <= j < rank and \
+            tt.items[0] is labels[i] and tt.items[1] is labels[j]
+        own = isinstance(pair, View) and pair.base is data and pair.idx in (('entryc', i, j),)
+        out.append((i, j, lab_ok, own))
+    return out
+
+
+def iterpairs_filter_from_source(cls, name='iterpairs', prog=None):
+    """the triangle predicate of MatrixArray.iterpairs, decided by enumerating the pairs the real generator yields for
+    rank 1..4 (so any spelling of the loop is accepted); falls back to reading an `if i<=j` filter from the source"""
+    key = (id(cls), name)
+    if key in _ITERPAIRS_CACHE:
+        return _ITERPAIRS_CACHE[key]
+    op = None
+    prog = prog or getattr(cls.module, 'prog', None)
+    if prog is not None:
+        try:
+            ops = set()
+            for rank in (1, 2, 3, 4):
+                got = enumerate_iterpairs(prog, cls, rank, name)
+                if not all(l and o_ for _, _, l, o_ in got):
+                    ops.add(None)
+                    break
+                pairs = [(i, j) for i, j, _, _ in got]
+                table = {'<=': [(i, j) for i in range(rank) for j in range(rank) if i <= j],
+                         '<': [(i, j) for i in range(rank) for j in range(rank) if i < j],
+                         '>=': [(i, j) for i in range(rank) for j in range(rank) if i >= j],
+                         '>': [(i, j) for i in range(rank) for j in range(rank) if i > j]}
+                ops.add(tuple(k for k, v in table.items() if v == pairs and (rank > 1 or k in ('<=', '>='))) or None)
+            cands = None
+            for o_ in ops:
+                if o_ is None:
+                    cands = set()
+                    break
+                cands = set(o_) if cands is None else (cands & set(o_))
+            if cands and len(cands) >= 1:
+                op = sorted(cands, key=lambda x: ('<=', '<', '>=', '>').index(x))[0] if len(cands) == 1 else \
+                    [c for c in ('<=', '<', '>=', '>') if c in cands][0]
+        except (Unsupported, Raised):
+            op = None
+    if op is None:
+        m = cls.find_method(name)
+        if m is not None:
+            for n in ast.walk(m.node):
+                if isinstance(n, ast.If) and isinstance(n.test, ast.Compare) and len(n.test.ops) == 1:
+                    t = n.test
+                    if isinstance(t.left, ast.Name) and isinstance(t.comparators[0], ast.Name):
+                        if any(isinstance(x, ast.Yield) for x in ast.walk(n)):
+                            op = {ast.LtE: '<=', ast.Lt: '<', ast.GtE: '>=', ast.Gt: '>'}.get(type(t.ops[0]))
+    _ITERPAIRS_CACHE[key] = op
+    return op
 
 
 def ma_iterpairs(ip, o, args, kwargs, node):
     data = o.attrs.get('data')
     if not isinstance(data, (Arr, View)):
         raise Unsupported('MatrixArray.data is not a heap array', node)
-    op = iterpairs_filter_from_source(o.cls) if hasattr(o.cls, 'find_method') else None
+    op = iterpairs_filter_from_source(o.cls, prog=ip.prog) if hasattr(o.cls, 'find_method') else None
     if op is None:
         raise Unsupported('cannot read the iteration predicate of MatrixArray.iterpairs', node)
     loc = ip.loc(node)
